@@ -1,5 +1,5 @@
 // Driver for C16: real `blackdagger start` / `retry` processes on one marker-file DAG, each under
-// `strace -f -ttt -T -e trace=execve,connect,bind,unlinkat` (optionally with a syscall delay injected to widen a window),
+// `strace -f -ttt -T -e trace=execve,flock,connect,bind,unlinkat` (optionally with a syscall delay injected to widen a window),
 // launched at chosen phases of the first run's life.  Per scenario it records, for every process: exit code, the
 // kind of refusal, the times of its socket system calls (probe = connect, unlink before bind, bind, shutdown unlink,
 // late unlink - effective times, i.e. entry + injected delay), its marker lines (which steps it executed, when), the
@@ -38,7 +38,7 @@ import (
 )
 
 type Anchor struct {
-	Act     string  `json:"act"` // probe | unlink | bind | shutunlink | lateunlink
+	Act     string  `json:"act"` // lock | probe | unlink | bind | shutunlink | lateunlink (lock: T = the instant the flock was granted)
 	T       float64 `json:"t"`   // effective time (epoch seconds): entry + injected delay
 	Dur     float64 `json:"dur"` // time from entry to exit of the call as strace saw it (-T), minus the injected delay
 	Ok      bool    `json:"ok"`  // the system call succeeded (probe: connected)
@@ -165,7 +165,7 @@ func (s *Scenario) launch(kind, inject, reqid string) *Proc {
 	p.straceF = filepath.Join(s.dir, fmt.Sprintf("strace-%d.txt", i))
 	s.Procs = append(s.Procs, p)
 	s.mu.Unlock()
-	args := []string{"-f", "-ttt", "-T", "-e", "trace=execve,connect,bind,unlinkat", "-o", p.straceF}
+	args := []string{"-f", "-ttt", "-T", "-e", "trace=execve,flock,connect,bind,unlinkat", "-o", p.straceF}
 	if inject != "" {
 		args = append(args, "-e", "inject="+inject)
 	}
@@ -315,6 +315,15 @@ func (s *Scenario) probe(label string) Probe {
 	return pr
 }
 
+func (p *Proc) isDone() bool {
+	select {
+	case <-p.done:
+		return true
+	default:
+		return false
+	}
+}
+
 func waitUntil(d time.Duration, f func() bool) bool {
 	dl := time.Now().Add(d)
 	for time.Now().Before(dl) {
@@ -343,7 +352,7 @@ func (s *Scenario) markerHas(step, tag string) bool {
 func sockExists(p string) bool { _, err := os.Lstat(p); return err == nil }
 
 var durRe = regexp.MustCompile(`<(\d+\.\d+)>\s*$`)
-var lineRe = regexp.MustCompile(`^(\d+)\s+(\d+\.\d+)\s+(connect|bind|unlinkat)\((.*)$`)
+var lineRe = regexp.MustCompile(`^(\d+)\s+(\d+\.\d+)\s+(connect|bind|unlinkat|flock)\((.*)$`)
 
 // parse the socket system calls of one process out of its strace log
 func (s *Scenario) anchors(p *Proc, delayUs int) {
@@ -361,7 +370,19 @@ func (s *Scenario) anchors(p *Proc, delayUs int) {
 		t    float64
 		call string
 	}{}
+	locked := false
 	handle := func(t float64, call, rest string) {
+		if call == "flock" { // the only exclusive flock of a start / retry is lockSocket's; it is granted when the call returns
+			if !locked && strings.Contains(rest, "LOCK_EX") && strings.Contains(rest, " = 0") {
+				locked = true
+				d := 0.0
+				if m := durRe.FindStringSubmatch(rest); m != nil {
+					d, _ = strconv.ParseFloat(m[1], 64)
+				}
+				p.Anchors = append(p.Anchors, Anchor{"lock", t + d, 0, true, false})
+			}
+			return
+		}
 		if !strings.Contains(rest, s.Sock) {
 			return
 		}
@@ -429,7 +450,7 @@ func (s *Scenario) anchors(p *Proc, delayUs int) {
 			f := strings.Fields(line)
 			if len(f) >= 4 {
 				call := strings.TrimSuffix(f[3], "")
-				for _, c := range []string{"connect", "bind", "unlinkat"} {
+				for _, c := range []string{"connect", "bind", "unlinkat", "flock"} {
 					if call == c {
 						if pe, ok := pending[f[0]+c]; ok {
 							delete(pending, f[0]+c)
@@ -544,9 +565,9 @@ func scnProbeBind(s *Scenario, delayUs int) {
 	}
 	time.Sleep(30 * time.Millisecond)
 	p1 := s.launch("start", "", "")
-	waitUntil(15*time.Second, func() bool { return s.markerHas("a", p1.Tag) })
+	waitUntil(15*time.Second, func() bool { return s.markerHas("a", p1.Tag) || p1.isDone() })
 	s.probe("second-running")
-	if waitUntil(15*time.Second, func() bool { return s.markerHas("a", p0.Tag) }) {
+	if waitUntil(15*time.Second, func() bool { return s.markerHas("a", p0.Tag) || p0.isDone() }) {
 		s.probe("both-running")
 		s.launchWait("start", "", "")
 		s.probe("after-third")
@@ -561,7 +582,7 @@ func scnBindFirst(s *Scenario, delayUs int) {
 	}
 	time.Sleep(150 * time.Millisecond)
 	p1 := s.launch("start", "", "")
-	waitUntil(15*time.Second, func() bool { return s.markerHas("a", p1.Tag) })
+	waitUntil(15*time.Second, func() bool { return s.markerHas("a", p1.Tag) || p1.isDone() })
 	s.probe("second-running")
 }
 
@@ -576,7 +597,7 @@ func scnLateUnlink(s *Scenario, delayUs int) {
 		return
 	}
 	p1 := s.launch("start", "", "")
-	waitUntil(15*time.Second, func() bool { return s.markerHas("a", p1.Tag) })
+	waitUntil(15*time.Second, func() bool { return s.markerHas("a", p1.Tag) || p1.isDone() })
 	s.probe("second-running-first-late")
 	p0.wait(30 * time.Second)
 	s.probe("second-running-first-gone")
